@@ -334,3 +334,102 @@ Proof.
   split; [vm_compute; reflexivity |]. split; [repeat constructor |]. split; [repeat constructor |].
   vm_compute. reflexivity.
 Qed.
+
+(** ** the polygon clause joined with the rest (Snap/ProofsJoinC02.v).
+
+    [routedClean g hots L idx r] (Properties/C18.v) is the [chainOf] above, [routedRings] is [chains].  Three additions:
+    the chain IS the concatenation of the routed edges; the result is given by an explicit formula when no chain has
+    area zero; the same for snapPolygon at every requested level. *)
+From Coq Require Import Lia.
+From Texel Require Import Index.ProofsRouting Snap.ProofsLevel Snap.ProofsJoinC18 Snap.ProofsJoinC02.
+
+Theorem C02_chains_are_routed_rings : forall g hots L P, chains g hots L P = routedRings g hots L P.
+Proof. exact chains_routedRings. Qed.
+Print Assumptions C02_chains_are_routed_rings.
+
+(** "the ring-by-ring concatenation of these routed edges": for a ring of the indexed polygon (grid whose stored extent
+    covers its pixels, level within the index) the chain, closed by its first centre, is the first centre followed
+    by the tails of the centre lists of the ring's edges in order — consecutive lists share their joint, which is
+    written once.  (Chains of fewer than two centres are a single pixel.) *)
+Theorem C02_chain_is_concatenation_of_routed_edges : forall g P hs L idx r c, 0 < gres g -> RootCovers g ->
+  insertPolygon g P = Ok hs -> (L <= gdeep g)%nat -> nth_error P idx = Some r ->
+  routedClean g (hotLevels g hs) L idx r = Ok c -> (2 <= length c)%nat ->
+  c ++ [hd (0, 0) c] =
+    hd (0, 0) c :: concat (map (@tl pt) (map (fun e => snapClosestPoints g (hotLevels g hs) (fst e) (snd e) L)
+                                             (dedges (ensureCorrectWindingOrder r (negb (Nat.eqb idx 0)))))).
+Proof. exact chain_is_concatenation_closed. Qed.
+Print Assumptions C02_chain_is_concatenation_of_routed_edges.
+
+(** THE POLYGON CLAUSE.  No two parts of the polygon collapse onto a common pixel: every chain has at least three
+    centres and a non-zero area, and no centre occurs twice in all chains together ([NoDup (concat ..)]; repeat-freeness
+    of each chain alone is what spike removal and splitting need — the hit flags are kept per ring and do not matter,
+    [split_nodup_ring] — the disjointness of different chains is what keeps dedupeInnersOuters from cancelling a
+    shell/hole pair).  Then, for every configuration, the level returns exactly: the first chain written
+    counter-clockwise ([ccw]) as shell, the other chains written clockwise ([cw]) as holes; a hole is attached to the
+    shell, in order, iff the model's ringContains finds one of its vertices in or on the shell ([attached]), the
+    others follow as polygons of their own, reversed ([polysOf]); every ring reversed under reverse-winding-order.
+    No points or lines.  Nothing is lost, added, split or merged: [C02_polygon_noncollapsing_rings]. *)
+Theorem C02_polygon_noncollapsing : forall g hots P cfg L c0 cr,
+  routedRings g hots L P = Ok (c0 :: cr) ->
+  Forall (fun c : ring => (3 <= length c)%nat /\ xprod c <> 0) (c0 :: cr) ->
+  NoDup (concat (c0 :: cr)) ->
+  snapLevel g hots P cfg L = Ok (Some (flipb (reverseWindingOrder cfg) (polysOf (ccw c0) (map cw cr)))).
+Proof. exact noncollapsing_level. Qed.
+Print Assumptions C02_polygon_noncollapsing.
+
+Theorem C02_polygon_noncollapsing_rings : forall (x0 : ring) (xs : list ring),
+  Permutation (concat (polysOf x0 xs)) (x0 :: map (fun h => if attached x0 h then h else rev h) xs).
+Proof. exact polysOf_rings. Qed.
+Print Assumptions C02_polygon_noncollapsing_rings.
+
+(** (i) a polygon without holes: exactly one polygon of exactly one ring, the chain written counter-clockwise
+    (clockwise under the flag) *)
+Theorem C02_polygon_noncollapsing_no_holes : forall g hots P cfg L c0,
+  routedRings g hots L P = Ok [c0] -> NoDup c0 -> (3 <= length c0)%nat -> xprod c0 <> 0 ->
+  snapLevel g hots P cfg L = Ok (Some [[if reverseWindingOrder cfg then rev (ccw c0) else ccw c0]]).
+Proof. exact noncollapsing_level_single. Qed.
+Print Assumptions C02_polygon_noncollapsing_no_holes.
+
+(** snapPolygon: when the hypotheses hold at every requested level ([c0 L], [cr L] the chains of level L), the whole
+    result is determined, level by level, in the order requested; no routing or kmp premise is left *)
+Theorem C02_snapPolygon_noncollapsing : forall g P levels cfg hs (c0 : nat -> ring) (cr : nat -> list ring),
+  insertPolygon g P = Ok hs ->
+  (forall L, In L levels ->
+     routedRings g (hotLevels g hs) L P = Ok (c0 L :: cr L) /\
+     Forall (fun c : ring => (3 <= length c)%nat /\ xprod c <> 0) (c0 L :: cr L) /\
+     NoDup (concat (c0 L :: cr L))) ->
+  snapPolygon g P levels cfg =
+    Ok (map (fun L => (L, flipb (reverseWindingOrder cfg) (polysOf (ccw (c0 L)) (map cw (cr L))))) levels).
+Proof. exact noncollapsing_snapPolygon. Qed.
+Print Assumptions C02_snapPolygon_noncollapsing.
+
+(** non-vacuity: the square with a square hole (32 x 32 pixels of size 2), the shell WRITTEN CLOCKWISE, levels 5 and 3,
+    reverse-winding-order on: all hypotheses hold; the formula gives one polygon per level, shell clockwise, hole
+    counter-clockwise; and a triangle without hole at level 3 *)
+Example C02_polygon_noncollapsing_example :
+  let g := mkGrid (mkExtent 0 0 64 64) 2 5 in
+  let P := [rev [(2,2);(40,2);(40,40);(2,40)]; [(10,10);(10,20);(20,20);(20,10)]] in
+  let hs := [(1,20);(20,20);(20,1);(1,1);(5,5);(5,10);(10,10);(10,5)] in
+  let c0 := fun L : nat => if Nat.eqb L 5 then [(3,3);(41,3);(41,41);(3,41)] else [(4,4);(44,4);(44,44);(4,44)] in
+  let cr := fun L : nat => if Nat.eqb L 5 then [[(11,11);(11,21);(21,21);(21,11)]] else [[(12,12);(12,20);(20,20);(20,12)]] in
+  insertPolygon g P = Ok hs /\
+  (forall L, In L [5; 3]%nat ->
+     routedRings g (hotLevels g hs) L P = Ok (c0 L :: cr L) /\
+     Forall (fun c : ring => (3 <= length c)%nat /\ xprod c <> 0) (c0 L :: cr L) /\
+     NoDup (concat (c0 L :: cr L))) /\
+  map (fun L => (L, flipb true (polysOf (ccw (c0 L)) (map cw (cr L))))) [5; 3]%nat =
+    [(5%nat, [[rev (c0 5%nat); [(21,11);(21,21);(11,21);(11,11)]]]); (3%nat, [[rev (c0 3%nat); [(20,12);(20,20);(12,20);(12,12)]]])] /\
+  snapPolygon g P [5; 3]%nat (mkConfig false false true) =
+    Ok [(5%nat, [[rev (c0 5%nat); [(21,11);(21,21);(11,21);(11,11)]]]); (3%nat, [[rev (c0 3%nat); [(20,12);(20,20);(12,20);(12,12)]]])] /\
+  (let T := [[(3,3);(50,10);(20,45)]] in
+   routedRings g (hotsOf g T) 3 T = Ok [[(4,4);(52,12);(20,44)]] /\
+   snapLevel g (hotsOf g T) T (mkConfig false false false) 3 = Ok (Some [[[(4,4);(52,12);(20,44)]]])).
+Proof.
+  cbn zeta. split; [vm_compute; reflexivity |]. split.
+  { intros L HL. cbn [In] in HL. destruct HL as [<- | [<- | []]]; cbn [Nat.eqb].
+    - split; [vm_compute; reflexivity |]. split; [repeat constructor; cbn; try lia; vm_compute; discriminate |].
+      apply nodupb_sound. vm_compute. reflexivity.
+    - split; [vm_compute; reflexivity |]. split; [repeat constructor; cbn; try lia; vm_compute; discriminate |].
+      apply nodupb_sound. vm_compute. reflexivity. }
+  split; [vm_compute; reflexivity |]. split; [vm_compute; reflexivity |]. split; vm_compute; reflexivity.
+Qed.
